@@ -1,12 +1,13 @@
 #!/bin/bash
 # shake.sh <seed-from> <seed-to>: many seeds x driver flavours, ALL node-level monitors in one TLC pass per trace.
 # Used to shake out rare false alarms of the monitors on the unchanged tree. Output: work/shake.log
-mkdir -p /verif/work/shake; cd /verif/harness
-FV=./target/debug/fv
+R=${VERIF_ROOT:-/verif}; export R
+mkdir -p $R/work/shake; cd $R/harness
+FV=${FV:-/verif/harness/target/debug/fv}
 run() { # name args...
   n=$1; shift
-  $FV "$@" --out /verif/work/shake/$n.ndjson > /dev/null 2>&1
-  r=$(MON_C01=1 MON_C06=1 MON_C07=1 MON_C08=1 MON_C09=1 MON_C10=1 MON_C11=1 MON_C12=1 MON_C13=1 MON_C14=1 MON_C15=1 MON_C16=1 MON_C17=1 MON_C19=1 /verif/tools/tv.sh Trace_Node /verif/work/shake/$n.ndjson /verif/work/shake/md.$n | grep -E '"RESULT"|rror' | cut -c1-6000)
+  $FV "$@" --out $R/work/shake/$n.ndjson > /dev/null 2>&1
+  r=$(MON_C01=1 MON_C06=1 MON_C07=1 MON_C08=1 MON_C09=1 MON_C10=1 MON_C11=1 MON_C12=1 MON_C13=1 MON_C14=1 MON_C15=1 MON_C16=1 MON_C17=1 MON_C19=1 $R/tools/tv.sh Trace_Node $R/work/shake/$n.ndjson $R/work/shake/md.$n | grep -E '"RESULT"|rror' | cut -c1-6000)
   echo "$n $r" | python3 -c "
 import sys,re,json
 l=sys.stdin.read()
@@ -14,8 +15,8 @@ m=re.search(r'<<\"RESULT\", \"(.*)\">>',l)
 if not m: print('TOOLERR',l[:300]); sys.exit()
 r=json.loads(m.group(1).encode().decode('unicode_escape'))
 print(l.split()[0],'calls',r['conf']['calls'],'ndiv',r['conf']['ndiv'],'viol',r['viol']['n'],[ (v['line'],v['call'],v['v']) for v in r['viol']['list']][:4], r['conf']['divs'][:2])
-" >> /verif/work/shake.log
-  rm -f /verif/work/shake/$n.ndjson
+" >> $R/work/shake.log
+  rm -f $R/work/shake/$n.ndjson
 }
 export -f run; export FV
 for s in $(seq $1 $2); do
